@@ -4,7 +4,7 @@ Correspondence of coq/model/Pool.v with
   slimta.util.deque.BlockingDeque                       (random method-call sequences)
   slimta.relay.pool.RelayPool / RelayPoolClient.poll    (a test subclass with scripted, gated clients)
   slimta.relay.smtp.static.StaticSmtpRelay + SmtpRelayClient on fake sockets
-  slimta.relay.http.HttpRelay on a stub connection      (informational until the D15 repair lands)
+  slimta.relay.http.HttpRelay with the real slimta.http.HTTPConnection (http.client) on a fake socket
 and the property oracle evaluated on what the implementation did.
 
 How the real code is tied to the model
@@ -22,7 +22,7 @@ How the real code is tied to the model
 Time is virtual: the names `Timeout` in slimta.relay.pool / slimta.relay.smtp.client and
 `gevent` in slimta.relay.http are replaced by a virtual Timeout driven by the harness clock.
 """
-import collections, errno, os, socket, types, time as _time
+import collections, errno, io, os, socket, types, time as _time
 
 import gevent
 from gevent.event import AsyncResult as GAsyncResult
@@ -38,7 +38,7 @@ ASSUMPTIONS = [
     'gevent: code between two blocking primitives is atomic; Greenlet.link callbacks run once, after the greenlet ends',
     'pool_size None/0 = unbounded, otherwise >= 1 (a negative size never spawns a client: outside the property)',
     'RelayPool.kill() and BlockingDeque(maxlen=...) / deque methods that BlockingDeque does not override (insert, rotate, __delitem__, +=) are outside the property; the pool uses append, appendleft, popleft, len only',
-    'clients respect the pool contract (complete the polled request with a result for its own envelope, or put it back, before polling again or exiting); shown for the SMTP client, assumed (repair D15 pending) for the HTTP client',
+    'clients respect the pool contract (complete the polled request with a result for its own envelope, or put it back, before polling again or exiting); proved for the models of the SMTP client and of the (repaired, D15) HTTP client; checked on the real clients by the runs',
     'SMTP client: the harness server answers in order; STARTTLS/AUTH not negotiated; SDrop = connection closed or silence until the command timeout',
     'a server that stays mute after the message data of a PIPELINING session holds the client for ever (defect D18, _flush_pipeline outside the data timeout; property C14): the scripted server closes the connection in that one situation',
 ]
@@ -1380,70 +1380,130 @@ def judge_smtp(ctx, runs):
     ctx.extra['traces_validated_against_impl'] = ctx.extra.get('traces_validated_against_impl', 0) + len(runs)
 
 
-# ====================================================================== 4. HttpRelay (informational until D15 is repaired)
-D15_FLAVOURS = ('refused', 'silent', 'badheader')
+# ====================================================================== 4. HttpRelay: real HttpRelayClient + real http.client over a fake socket
+HW = dict(request=0, connect=1, response=2, close=3, result=4)
+HFLAV = {'ok': 0, 'rej': 1, 'rej-noheader': 1, 'refused': 2, 'silent': 3, 'hangup': 4, 'slow': 0}
 
 
-class StubResponse(object):
-    def __init__(self, status, reason, headers):
-        self.status = status
-        self.reason = reason
-        self._h = headers
+class _Raw(io.RawIOBase):
+    def __init__(self, sock):
+        io.RawIOBase.__init__(self)
+        self.sock = sock
 
-    def getheader(self, name, default=None):
-        return self._h.get(name, default)
+    def readable(self):
+        return True
 
-    def getheaders(self):
-        return list(self._h.items())
+    def readinto(self, b):
+        data = self.sock.recv(len(b))
+        b[:len(data)] = data
+        return len(data)
 
 
-class StubConn(object):
-    def __init__(self, world):
+class FakeHttpSock(object):
+    """client side socket of one scripted HTTP server connection"""
+
+    def __init__(self, world, idx, owner):
         self.world = world
-        self.sent = b''
-        world.open_conns.add(self)
-        world.max_open = max(world.max_open, len(world.open_conns))
+        self.idx = idx
+        self.owner = owner
+        self.inbuf = b''
+        self.out = collections.deque()
+        self.eof = False
+        self.waiter = None
+        self.held = None
+        self.held_poll = None
+        self.closed = False
+        self.served = []
 
-    def flavour(self):
-        no = -1
-        for line in self.sent.split(b'\r\n'):
-            if line.lower().startswith(b'x-env:'):
-                no = int(line.split(b':')[1])
-        return self.world.env_flavour.get(no, 'ok')
-
-    def putrequest(self, method, path):
-        self.sent = b''
-        c = self.world.cur()
-        held = self.world.holding.get(c)
-        if held is not None and self.world.env_flavour.get(held[1].no, 'ok') == 'refused':
-            raise socket.error(errno.ECONNREFUSED, 'scripted refusal')
-
-    def putheader(self, name, value):
+    def setsockopt(self, *a):
         pass
 
-    def endheaders(self, data=None):
-        self.sent += bytes(data or b'')
+    def settimeout(self, t):
+        pass
 
-    def send(self, data):
-        self.sent += bytes(data)
+    def makefile(self, mode='rb', *a, **kw):
+        return io.BufferedReader(_Raw(self))
 
-    def getresponse(self):
+    def recv(self, n=4096):
+        while True:
+            if self.out:
+                c = self.out.popleft()
+                if len(c) > n:
+                    self.out.appendleft(c[n:]); c = c[:n]
+                return c
+            if self.eof or self.closed:
+                return b''
+            self.waiter = GAsyncResult()
+            try:
+                self.waiter.get()
+            finally:
+                self.waiter = None
+
+    def sendall(self, data):
         self.world.activity += 1
-        fl = self.flavour()
-        if fl == 'silent':
-            GAsyncResult().get()
-        if fl == 'ok':
-            return StubResponse(200, 'OK', {'X-Smtp-Reply': '250; message="2.0.0 queued"'})
-        if fl == 'rej':
-            return StubResponse(550, 'Rejected', {'X-Smtp-Reply': '550; message="5.0.0 scripted-reject"'})
-        if fl == 'rej-noheader':
-            return StubResponse(500, 'Server Error', {})
-        if fl == 'badheader':
-            return StubResponse(200, 'OK', {'X-Smtp-Reply': '2x0; nonsense'})
-        raise AssertionError(fl)
+        self.inbuf += bytes(data)
+        self.process()
 
     def close(self):
-        self.world.open_conns.discard(self)
+        if not self.closed:
+            self.closed = True
+            self.world.open_conns.discard(self)
+            if self.held is not None:
+                # the client gave up before the harness released the response: a mute server
+                self.held = None
+                if self.held_poll is not None:
+                    self.held_poll[2] = HFLAV['silent']
+
+    def push(self, data):
+        self.out.append(data)
+        if self.waiter is not None and not self.waiter.ready():
+            self.waiter.set(None)
+
+    def hangup(self):
+        self.eof = True
+        if self.waiter is not None and not self.waiter.ready():
+            self.waiter.set(None)
+
+    def release(self):
+        if self.held is not None:
+            h, self.held = self.held, None
+            h()
+
+    def process(self):
+        while True:
+            k = self.inbuf.find(b'\r\n\r\n')
+            if k < 0:
+                return
+            head = self.inbuf[:k].split(b'\r\n')
+            clen = 0
+            for line in head[1:]:
+                if line.lower().startswith(b'content-length:'):
+                    clen = int(line.split(b':')[1])
+            if len(self.inbuf) < k + 4 + clen:
+                return
+            body, self.inbuf = self.inbuf[k + 4:k + 4 + clen], self.inbuf[k + 4 + clen:]
+            no = -1
+            for line in body.split(b'\r\n'):
+                if line.lower().startswith(b'x-env:'):
+                    no = int(line.split(b':')[1])
+            self.served.append(no)
+            self.world.requests_seen.append(no)
+            fl = self.world.env_flavour.get(no, 'ok')
+            ok = (b'HTTP/1.1 200 OK\r\nX-Smtp-Reply: 250; message="2.0.0 queued env %d"\r\n'
+                  b'Content-Length: 2\r\n\r\nok' % no)
+            if fl == 'ok':
+                self.push(ok)
+            elif fl == 'rej':
+                self.push(b'HTTP/1.1 550 Rejected\r\nX-Smtp-Reply: 550; message="5.0.0 scripted-reject env %d"\r\n'
+                          b'Content-Length: 0\r\n\r\n' % no)
+            elif fl == 'rej-noheader':
+                self.push(b'HTTP/1.1 500 Server Error env %d\r\nContent-Length: 5\r\n\r\nsorry' % no)
+            elif fl in ('hangup', 'refused'):
+                self.hangup()
+            elif fl == 'slow':
+                self.held = lambda ok=ok: self.push(ok)
+                self.held_poll = self.world.cur_poll.get(self.owner)
+            # 'silent': nothing, ever
 
 
 class HttpWorld(World):
@@ -1454,22 +1514,73 @@ class HttpWorld(World):
         self.env_flavour = env_flavour
         self.open_conns = set()
         self.max_open = 0
+        self.socks = []
         self.attempt_greenlets = []
         self.outcomes = {}
         self.nenv = 0
+        self.wirelog = {}
+        self.polls = {}
+        self.cur_poll = {}
+        self.requests_seen = []
 
     def __enter__(self):
         import slimta.relay.http as httpmod
+        import slimta.http as shttp
         World.__enter__(self)
-        self._http_saved = (httpmod.get_connection, httpmod.gevent)
-        httpmod.get_connection = lambda url, context=None: StubConn(self)
+        world = self
+        self._http_saved = (httpmod.gevent, shttp.HTTPConnection)
+        REAL = shttp.HTTPConnection
+
+        class TracedConn(REAL):
+            """the real slimta.http.HTTPConnection (http.client state machine included); only the
+            socket factory is replaced and three calls are logged"""
+
+            def __init__(self, *a, **kw):
+                REAL.__init__(self, *a, **kw)
+                self._create_connection = world.http_connect
+
+            def putrequest(self, *a, **kw):
+                world.hlog((HW['request'], world.held_env()))
+                return REAL.putrequest(self, *a, **kw)
+
+            def getresponse(self):
+                r = REAL.getresponse(self)
+                world.hlog((HW['response'], world.held_env()))
+                return r
+
+            def close(self):
+                log = world.wirelog.get(world.cur())
+                if log and log[-1] != (HW['close'],):
+                    log.append((HW['close'],))
+                return REAL.close(self)
+
+        shttp.HTTPConnection = TracedConn
         httpmod.gevent = types.SimpleNamespace(Timeout=self.VTimeout)
         return self
 
     def __exit__(self, *a):
         import slimta.relay.http as httpmod
-        httpmod.get_connection, httpmod.gevent = self._http_saved
+        import slimta.http as shttp
+        httpmod.gevent, shttp.HTTPConnection = self._http_saved
         World.__exit__(self, *a)
+
+    def hlog(self, w):
+        self.wirelog.setdefault(self.cur(), []).append(w)
+
+    def held_env(self):
+        h = self.holding.get(self.cur())
+        return h[1].no if h is not None else -1
+
+    def http_connect(self, address, timeout=None, source_address=None):
+        c = self.cur()
+        self.hlog((HW['connect'],))
+        if self.env_flavour.get(self.held_env(), 'ok') == 'refused':
+            raise socket.error(errno.ECONNREFUSED, 'scripted refusal')
+        s = FakeHttpSock(self, len(self.socks), c)
+        self.socks.append(s)
+        self.open_conns.add(s)
+        self.max_open = max(self.max_open, len(self.open_conns))
+        return s
 
     def start(self):
         import slimta.relay.http as httpmod
@@ -1497,8 +1608,25 @@ class HttpWorld(World):
         self.pool = TracedHttpRelay('http://192.0.2.1/deliver', pool_size=self.size, ehlo_as='harness',
                                     timeout=10, idle_timeout=self.idle)
 
+    def note_poll(self, c, item):
+        if item is None:
+            self.polls.setdefault(c, []).append(None)
+            return
+        rec = [item[0].slot, item[1].no, HFLAV[self.env_flavour.get(item[1].no, 'ok')]]
+        self.cur_poll[c] = rec
+        self.polls.setdefault(c, []).append(rec)
+
     def result_kind(self, ok, value):
-        return 0 if ok else 1
+        if ok:
+            return 0
+        return 2 if str(value).startswith('Delivery ') else 1
+
+    def on_result(self, res, ok, value):
+        c = self.cur()
+        held = self.holding.get(c) if c is not None else None
+        World.on_result(self, res, ok, value)
+        if held is not None and held[0] is res:
+            self.hlog((HW['result'], held[1].no, 1 if ok else 0))
 
     def _attempt(self, env):
         try:
@@ -1515,71 +1643,204 @@ class HttpWorld(World):
             self.attempt_greenlets.append(gevent.spawn(self._attempt, env))
         elif act[0] == 'T':
             self.advance(act[1])
+        elif act[0] == 'M':
+            self.socks[act[1]].release()
+
+    def options(self, rng, allow_attempt):
+        opts = []
+        if allow_attempt:
+            opts += [('A',)] * 3
+        for i, s in enumerate(self.socks):
+            if s.held is not None:
+                opts += [('M', i)] * 2
+        if self.timers:
+            nxt = min(t[0] for t in self.timers) - self.now
+            opts += [('T', max(nxt, 1)), ('T', max(nxt, 1)), ('T', max(nxt - 1, 1))]
+        return opts
 
 
-def run_http_case(size, idle, flavours, script):
+def py_http_clean(log):
+    st = None          # None clean, ('open', e), 'dirty'
+    for w in log:
+        t = w[0]
+        if t == HW['request']:
+            if st is not None:
+                return 'request for envelope %r while the connection is %s' % (
+                    w[1], 'still inside the broken exchange of an earlier message (no close() in between)' if st == 'dirty'
+                    else 'inside the exchange of envelope %r' % (st[1],))
+            st = ('open', w[1])
+        elif t == HW['response']:
+            if not (isinstance(st, tuple) and st[1] == w[1]):
+                return 'response read for envelope %r outside its exchange' % (w[1],)
+            st = None
+        elif t == HW['close']:
+            st = None
+        elif t == HW['result']:
+            if isinstance(st, tuple):
+                if st[1] != w[1]:
+                    return 'result for envelope %r during the exchange of envelope %r' % (w[1], st[1])
+                st = 'dirty'
+    return None
+
+
+def run_http_case(size, idle, flavours, script, rng=None, nsteps=0, nattempts=0):
     w = HttpWorld(size, idle, dict(enumerate(flavours)))
     fails = []
+    out_script = []
     with w:
         w.start()
-        for step in script:
+        i = 0
+        while True:
+            if script is not None:
+                if i >= len(script):
+                    break
+                step = [tuple(a) for a in script[i]]
+            else:
+                if i >= nsteps:
+                    break
+                opts = w.options(rng, w.nenv < nattempts)
+                if not opts:
+                    break
+                step = [rng.choice(opts)]
+                if step[0][0] == 'A' and w.nenv + 1 < nattempts and rng.random() < 0.3:
+                    step.append(('A',))
+            i += 1
+            out_script.append([list(a) for a in step])
             for a in step:
-                w.do(tuple(a))
+                w.do(a)
             w.settle()
-            oracle_settled(w, size, 'after %r' % (step,), fails)
-        for _ in range(12):          # drain: let request and idle timeouts expire a few times
-            if not [g for g in w.attempt_greenlets if not g.dead] or not w.timers:
+            oracle_settled(w, size, 'after step %d %r' % (i, step), fails)
+        while w.nenv < (nattempts if script is None else 0):
+            w.do(('A',)); w.settle()
+            out_script.append([['A']])
+        # drain: release held responses, let the clock run until every attempt is answered
+        for _ in range(60):
+            if not [g for g in w.attempt_greenlets if not g.dead]:
                 break
-            w.advance(max(min(t[0] for t in w.timers) - w.now, 1))
+            held = [k for k, s in enumerate(w.socks) if s.held is not None]
+            if held:
+                for k in held:
+                    w.do(('M', k))
+            elif w.timers:
+                w.advance(max(min(t[0] for t in w.timers) - w.now, 1))
+            else:
+                break
             w.settle()
-        oracle_point(w, size, 'after drain', fails)
+        oracle_settled(w, size, 'after drain', fails)
         pending = sorted(no for no in range(w.nenv) if no not in w.outcomes)
+        if pending:
+            fails.append(('c19:attempt-never-answered', 'attempt(s) for envelope(s) %r still blocked after the drain phase' % (pending,)))
         if size and w.max_open > size:
             fails.append(('c19:connections-exceed-bound', '%d open connections, size %d' % (w.max_open, size)))
+        for i2, (ev, cur, snap) in enumerate(w.raw):
+            if size and len(snap[0]) > size:
+                fails.append(('c19:pool-exceeds-bound', 'event %d %r: pool %r, size %d' % (i2, ev, snap[0], size)))
+                break
+        if any(ev[0] == 'abandon' for ev, cur, snap in w.raw):
+            fails.append(('c19:http-client-breaks-contract', 'a client dropped its request without completing it'))
+        dirty = {}
+        for c, log in sorted(w.wirelog.items()):
+            e1 = py_http_clean(log)
+            if e1:
+                dirty[c] = e1
+                fails.append(('c19:http-connection-not-reset-after-failed-exchange', 'client %r: %s; log %r' % (c, e1, log)))
+        # every attempt gets the result of its OWN envelope, and the one its server gave
+        eff = {}
+        for c, pl in w.polls.items():
+            for p in pl:
+                if p is not None:
+                    eff[p[1]] = p[2]
+        for no, oc in sorted(w.outcomes.items()):
+            fl = eff.get(no)
+            text = str(getattr(oc[1], 'message', None) or getattr(getattr(oc[1], 'reply', None), 'message', None) or oc[1])
+            if oc[0] == 'ok' or 'env ' in text:
+                if ('env %d' % no) not in text or (oc[0] == 'ok' and getattr(oc[1], 'code', None) != '250'):
+                    fails.append(('c19:result-of-another-envelope', 'attempt(envelope %d) received %r' % (no, text)))
+            if fl == 0 and oc[0] != 'ok':
+                fails.append(('c19:http-healthy-delivery-failed',
+                              'the server answers envelope %d with 200/250 (requests it saw: %r) but attempt() raised %r' % (no, w.requests_seen, oc[1])))
+            if fl in (2, 3, 4) and not (oc[0] == 'exc' and type(oc[1]).__name__ == 'TransientRelayError'):
+                fails.append(('c19:http-broken-exchange-not-transient', 'envelope %d (server refused/mute/hung up): %r' % (no, oc)))
         fails.extend(w.problems)
-        abandoned = [ev for ev, cur, snap in w.raw if ev[0] == 'abandon']
-        return dict(raw=list(w.raw), fails=fails, pending=pending, abandoned=abandoned, nenv=w.nenv)
+        return dict(raw=list(w.raw), fails=fails, script=out_script, nenv=w.nenv,
+                    polls={c: [None if p is None else list(p) for p in v] for c, v in w.polls.items()},
+                    wirelog={c: list(v) for c, v in w.wirelog.items()}, nclients=len(w.clients),
+                    finished=set(w.finished), max_open=w.max_open)
+
+
+HTTP_FIXED = [
+    # delivery #0 stalls past the timeout, delivery #1 (healthy) must get its own 250
+    (['silent', 'ok'], [[['A']], [['T', 10]], [['A']]]),
+    (['silent', 'ok'], [[['A']], [['A']], [['T', 10]]]),
+    (['silent', 'ok', 'ok'], [[['A']], [['T', 9]], [['A']], [['T', 1]], [['A']]]),
+    (['slow', 'ok'], [[['A']], [['T', 10]], [['A']]]),               # response never released in time
+    (['slow', 'ok'], [[['A']], [['T', 5]], [['M', 0]], [['A']]]),    # slow but in time: both 250
+    (['slow', 'ok'], [[['A']], [['A']], [['T', 10]], [['M', 0]]]),   # late response after the give-up
+    (['hangup', 'ok'], [[['A']], [['A']]]),
+    (['refused', 'ok'], [[['A']], [['A']]]),
+    (['ok', 'silent', 'ok'], [[['A']], [['A']], [['T', 10]], [['A']]]),
+    (['ok', 'hangup', 'ok', 'refused', 'ok'], [[['A']], [['A']], [['A']], [['A']], [['A']]]),
+    (['rej', 'ok', 'rej-noheader', 'ok'], [[['A']], [['A']], [['A']], [['A']]]),
+]
 
 
 def http_stream(ctx, ncases):
     rng = ctx.rng
     runs = []
+    for flavours, script in HTTP_FIXED:
+        for size in (1, 2):
+            for idle in (None, 25):
+                r = run_http_case(size, idle, flavours, script)
+                r.update(size=size, idle=idle, flavours=flavours)
+                runs.append(r)
+                ctx.count('http-fixed-scenarios')
     for _ in range(ncases):
-        size = rng.choice([1, 2, None])
-        idle = rng.choice([None, 5])
-        n = rng.randrange(1, 5)
-        d15 = rng.random() < 0.35
-        flavours = [rng.choice(['ok', 'ok', 'rej', 'rej-noheader'] + (list(D15_FLAVOURS) if d15 else [])) for _ in range(n)]
-        script = []
-        for _ in range(n):
-            script.append([['A']])
-            if rng.random() < 0.3:
-                script.append([['T', rng.choice([1, 5, 10])]])
-        r = run_http_case(size, idle, flavours, script)
-        r.update(size=size, idle=idle, flavours=flavours, script=script)
+        size = rng.choice([1, 1, 2, 3, None])
+        idle = rng.choice([None, 25, 25])
+        n = rng.randrange(1, 6)
+        flavours = [rng.choice(['ok', 'ok', 'ok', 'rej', 'rej-noheader', 'refused', 'silent', 'hangup', 'slow', 'slow']) for _ in range(n)]
+        r = run_http_case(size, idle, flavours, None, rng=rng, nsteps=rng.randrange(2, 12), nattempts=n)
+        r.update(size=size, idle=idle, flavours=flavours)
         runs.append(r)
     mouts = ctx.model.batch('c19_run', [[enc_cfg(r['size'], r['idle']), [enc_ev(ev) for ev, cur, snap in r['raw']]] for r in runs])
+    hin, hidx = [], []
+    for i, r in enumerate(runs):
+        for c in range(r['nclients']):
+            hin.append([0 if r['idle'] is None else 1, [[] if p is None else p for p in r['polls'].get(c, [])]])
+            hidx.append((i, c))
+    houts = ctx.model.batch('c19_http', hin)
     for r, mo in zip(runs, mouts):
         case = dict(kind='http', size=r['size'], idle=r['idle'], flavours=r['flavours'], script=r['script'])
-        sick = [f for f in r['flavours'] if f in D15_FLAVOURS]
-        ctx.evaluated(('http', r['size'], r['idle'], tuple(r['flavours']), repr(r['script'])), nontrivial=len(r['flavours']) >= 2)
+        broken = [f for f in r['flavours'] if f in ('refused', 'silent', 'hangup', 'slow')]
+        ctx.evaluated(('http', r['size'], r['idle'], tuple(r['flavours']), repr(r['script'])),
+                      nontrivial=len(r['flavours']) >= 2 and bool(broken) and 'ok' in r['flavours'])
         ctx.count('http-cases')
+        for f in set(r['flavours']):
+            ctx.count('http-server:' + f)
+        if any(sum(1 for w in log if w[0] == HW['request']) >= 2 and sum(1 for w in log if w[0] == HW['connect']) == 1 for log in r['wirelog'].values()):
+            ctx.count('http-connection-reused')
         ctx.count('events-validated', len(r['raw']))
         validate_trace(ctx, 'http-pool-trace', case, None, r['raw'], mo)
-        broke = bool(r['pending'] or r['abandoned'])
-        if sick:
-            if broke:
-                ctx.count('http-d15-symptom-seen')
-                ctx.note('HTTP relay client (defect D15, owned by C11): with a refusing or silent server the polled request is neither completed nor put back and attempt() never returns - reported, not judged here until the repair lands')
-            else:
-                ctx.count('http-d15-flavour-handled')
-        else:
-            if broke:
-                ctx.fail('c19:http-client-breaks-contract', case, 'healthy server, yet pending=%r abandoned=%r' % (r['pending'], r['abandoned']))
         for key, what in r['fails']:
-            if sick and key in ('c19:stranded-request',):
-                continue
             ctx.fail(key, case, what)
+    ACT = {'enterpoll': 0, 'poll': 1, 'idle': 2, 'done': 3, 'requeue': 4, 'giveup': 5}
+    for (i, c), ho in zip(hidx, houts):
+        r = runs[i]
+        case = dict(kind='http', size=r['size'], idle=r['idle'], flavours=r['flavours'], script=r['script'], client=c)
+        m_wire, m_acts, m_exited, m_clean, m_contract = ho
+        real_wire = tuple(tuple(w) for w in r['wirelog'].get(c, []))
+        model_wire = tuple(tuple(w) for w in m_wire)
+        ctx.count('http-clients-compared')
+        if real_wire != model_wire:
+            ctx.mismatch('http-wire', case, real_wire, model_wire)
+        real_acts = tuple((ACT[ev[0]],) + ((ev[2],) if ev[0] == 'done' else ()) for ev in client_acts(r['raw'], c))
+        model_acts = tuple((a[0],) + ((a[2],) if a[0] == 3 else ()) for a in m_acts)
+        if real_acts != model_acts:
+            ctx.mismatch('http-client-actions', case, real_acts, model_acts)
+        if bool(m_exited) != (c in r['finished']):
+            ctx.mismatch('http-client-exited', case, c in r['finished'], m_exited)
+        if not (m_clean and m_contract):
+            ctx.mismatch('http-model-checker-false', case, None, (m_clean, m_contract))
     ctx.extra['traces_validated_against_impl'] = ctx.extra.get('traces_validated_against_impl', 0) + len(runs)
 
 
@@ -1632,7 +1893,7 @@ def run(ctx):
     scripted_stream(ctx, 500 if q else 10000, 14 if q else 18, 0.0)
     scripted_stream(ctx, 400 if q else 8000, 14 if q else 18, 0.35)
     smtp_stream(ctx, 300 if q else 5000, 10 if q else 14)
-    http_stream(ctx, 120 if q else 1200)
+    http_stream(ctx, 150 if q else 2500)
     tot_s = tot_t = 0
     allx = True
     bounds = []
@@ -1652,8 +1913,8 @@ def run(ctx):
         'actions valid in the real state, sizes 1..3/unbounded, idle none/finite; "compound" schedules issue two actions before the run queue drains; '
         'plus a breadth-first exploration of all action sequences within the stated bound. smtp: StaticSmtpRelay + SmtpRelayClient against a scripted '
         'server (per message: unsolicited 421, MAIL/RCPT/DATA/body reply ok|reject|lost, RSET survives or not, held replies/connects, PIPELINING on/off, '
-        '8BITMIME on/off). Every observed step of the real pool is replayed on the model (must be enabled; pool members, idle flags, queue, semaphore equal); '
-        'gated schedules are also predicted by the model\'s FIFO run; each SMTP connection\'s wire log and pool actions are compared with smtp_run. '
+        '8BITMIME on/off). http: HttpRelay + HttpRelayClient + the real http.client connection over a fake socket against a scripted server (per message ok | reject | refused | mute | hangs up | slow, released in time or not), fixed stall-then-healthy scenarios plus random schedules; every attempt must get the result of its own envelope and a healthy delivery must succeed. Every observed step of the real pool is replayed on the model (must be enabled; pool members, idle flags, queue, semaphore equal); '
+        'gated schedules are also predicted by the model\'s FIFO run; each SMTP / HTTP connection\'s log and pool actions are compared with smtp_run / http_run. '
         'non-trivial = at least two attempts and at least four kinds of action (pool) / a failed, reset or requeued transaction (smtp).')
     ctx.extra['trusted_base'] = [
         'gevent semantics assumed by the model: atomicity between blocking calls, Semaphore wakes waiters FIFO and only while its counter is positive, link callbacks after the greenlet ends',
@@ -1678,8 +1939,9 @@ def replay(ctx, rep):
             print('polls of client %s: %r' % (c, pl))
     elif kind == 'http':
         r = run_http_case(case['size'], case['idle'], case['flavours'], case['script'])
-        r['script'] = case['script']
-        print('unanswered attempts: %r, abandoned: %r' % (r['pending'], r['abandoned']))
+        for c, log in sorted(r['wirelog'].items()):
+            print('connection log of client %s (0 request e, 1 connect, 2 response e, 3 close, 4 result e ok): %r' % (c, log))
+        print('requests per client: %r' % (r['polls'],))
     elif kind == 'deque':
         d = BlockingDeque(case['init'])
         names = ['append', 'appendleft', 'clear', 'extend', 'extendleft', 'pop', 'popleft', 'remove']
